@@ -267,8 +267,13 @@ impl Ctx {
         self.args.replay.is_some()
     }
 
+    /// development aid: CAPYV_COLLECT_ALL=1 keeps searching past every failure and lists the keys
+    pub fn collect_all(&self) -> bool {
+        std::env::var("CAPYV_COLLECT_ALL").is_ok()
+    }
+
     pub fn is_known(&self, key: &str) -> bool {
-        !self.strict() && self.open_keys.contains(key)
+        !self.strict() && (self.open_keys.contains(key) || self.collect_all())
     }
 
     pub fn add_evals(&self, n: u64) {
@@ -312,6 +317,14 @@ impl Ctx {
             *i.known_hits.entry(key.to_string()).or_insert(0) += 1;
             return true;
         }
+        if !self.strict() && self.collect_all() {
+            let c = i.known_hits.entry(key.to_string()).or_insert(0);
+            *c += 1;
+            if *c == 1 {
+                eprintln!("COLLECT {key}\n    {}", description.lines().next().unwrap_or(""));
+            }
+            return true;
+        }
         let e = i.violations.entry(key.to_string());
         use std::collections::btree_map::Entry;
         match e {
@@ -338,6 +351,18 @@ impl Ctx {
 
     pub fn violation_count(&self) -> usize {
         self.inner.lock().unwrap().violations.len()
+    }
+
+    /// For helper child processes: prints the violations found (the parent re-reports them) and
+    /// writes neither evidence nor replay files.
+    pub fn finish_child(&self) -> i32 {
+        let i = self.inner.lock().unwrap();
+        for v in i.violations.values() {
+            outln!("violation key: {}", v.key);
+            outln!("  {}", v.description.replace('\n', "\n  "));
+            outln!("VIOLATION property={} replay=child", self.args.property);
+        }
+        if i.violations.is_empty() { 0 } else { 1 }
     }
 
     /// Writes evidence, prints VIOLATION lines, returns the process exit code.
